@@ -35,14 +35,19 @@ def nontrivial(tr):
 def run(ctx, replay=None):
     engine.build_go(ctx, ['voteset'])
     if replay is not None:
-        rep = engine.run_driver(ctx, 'voteset', [replay['trace']])
-        engine.collect(ctx, rep, [replay['trace']], 'voteset')
+        drv = replay.get('engine') or 'voteset'
+        if drv == 'hvs':
+            engine.build_go(ctx, ['hvs'])
+        rep = engine.run_driver(ctx, drv, [replay['trace']])
+        engine.collect(ctx, rep, [replay['trace']], drv)
         ctx.cov['traces_validated_against_impl'] = 1
         ctx.cov['states'] = ctx.cov['transitions'] = max(1, len(replay['trace']['steps']))
         ctx.sample({'replayed': len(replay['trace']['steps'])})
         return
 
     quick = ctx.tier == 'quick'
+    from . import hvs_slice
+    hvs_slice.run(ctx, quick)
     exhaustive = ['q', '122', '12', '3'] if quick else ['q', '112', '122', '123', '3', '12', '1111', '11111']
     graph_cfgs = ['q', '3', '12'] if quick else ['q', '3', '12']   # '3' and '12': total power divisible by 3 (exactly 2/3 is NOT a majority)
     sim_cfgs = [('1111', 120, 16), ('112', 80, 14), ('122', 80, 14), ('11111', 80, 16), ('123', 80, 14), ('3', 20, 8)] if quick else \
